@@ -840,6 +840,7 @@ func runSticky(c zooCase) *core.Failure {
 	ops := contOps()
 	calls := 0
 	q := ef.q
+	firstText := ef.q.Err.Error() // the text, not the error object: looking at a failed frame must not rewrite its error
 	var names []string
 	for _, oi := range c.Cont {
 		q = ops[oi].run(q, &calls)
@@ -847,8 +848,8 @@ func runSticky(c zooCase) *core.Failure {
 		if q.Err == nil {
 			return core.Failf("error lost: [%s] -> %s yields a frame without Err", ef.name, strings.Join(names, " -> "))
 		}
-		if !strings.Contains(q.Err.Error(), ef.q.Err.Error()) {
-			return core.Failf("the error was replaced: [%s] -> %s reports %q, the frame it was called on reported %q", ef.name, strings.Join(names, " -> "), q.Err.Error(), ef.q.Err.Error())
+		if !strings.Contains(q.Err.Error(), firstText) {
+			return core.Failf("the error was replaced: [%s] -> %s reports %q, the frame it was called on reported %q", ef.name, strings.Join(names, " -> "), q.Err.Error(), firstText)
 		}
 		if q.Len() != -1 {
 			return core.Failf("errored frame exposes rows: [%s] -> %s has Len() %d", ef.name, strings.Join(names, " -> "), q.Len())
@@ -881,6 +882,16 @@ func runSticky(c zooCase) *core.Failure {
 	}
 	if _, err := q.IntView("i"); false && err == nil {
 		_ = err // views of errored frames are not specified by the statement
+	}
+	// writing, grouping and printing the failed frame must have left its error as it was
+	_ = q.String()
+	if after := q.Err.Error(); !strings.Contains(after, firstText) || (len(c.Cont) == 0 && after != firstText) {
+		return core.Failf("%s: after GroupBy/ToCSV/ToJSON/ToSQL/String on the failed frame its error reads %q, before it read %q", what, after, firstText)
+	}
+	if len(c.Cont) > 0 {
+		if now := ef.q.Err.Error(); now != firstText {
+			return core.Failf("%s: the error of the frame the chain started from changed from %q to %q", what, firstText, now)
+		}
 	}
 	return nil
 }
